@@ -4622,7 +4622,8 @@ func (n *FlowSpecNLRI) decodeFromBytes(data []byte, options ...*MarshallingOptio
 	}
 	var length int
 	if data[0]>>4 == 0xf && len(data) > 2 {
-		length = int(binary.BigEndian.Uint16(data[:2]))
+		// RFC 8955 4.1: the length is the low 12 bits of 0xfnnn
+		length = int(binary.BigEndian.Uint16(data[:2]) & 0x0fff)
 		data = data[2:]
 	} else if len(data) > 1 {
 		length = int(data[0])
@@ -4735,16 +4736,14 @@ func (n *FlowSpecNLRI) Serialize(options ...*MarshallingOption) ([]byte, error) 
 		}
 		buf = append(buf, b...)
 	}
-	length := n.Len(options...)
+	length := len(buf)
 	if length > 0xfff {
 		return nil, fmt.Errorf("too large: %d", length)
 	} else if length < 0xf0 {
-		length -= 1
 		buf = append([]byte{byte(length)}, buf...)
 	} else {
-		length -= 2
 		b := make([]byte, 2)
-		binary.BigEndian.PutUint16(buf, uint16(length))
+		binary.BigEndian.PutUint16(b, 0xf000|uint16(length))
 		buf = append(b, buf...)
 	}
 	return buf, nil
